@@ -118,6 +118,26 @@ def random_tuples(rng, n):
             D["m_w"].append([W(v), S(("a",))])
             D["vs"].append([V([S(v)])])
             D["os_s"].append([Opt(True, S(v)), S(())])
+    # a control character and the text of its Debug escape: "\n" (one char) vs "\\n" (backslash, n) etc.
+    # -- a renderer that escapes one but not the other makes them collide
+    look = [("\n", "\\n"), ("\t", "\\t"), ("\r", "\\r"), ("\0", "\\0"), ("\\", "\\\\"), ("\"", "\\\""), ("'", "\\'"),
+            ("\u0007", "\\u{7}"), ("\u200b", "\\u{200b}"), ("\u001b", "\\u{1b}"), ("é", "\\u{e9}")]
+    for (ch, txt) in look:
+        for pre_, post_ in (((), ()), (("C", ":"), ("e", "w")), (("a",), ())):
+            v1 = tuple(pre_) + (ch,) + tuple(post_)
+            v2 = tuple(pre_) + tuple(txt) + tuple(post_)
+            for v in (v1, v2):
+                D["s"].append([S(v)])
+                D["s_s"].append([S(v), S(("a",))])
+                D["s_s"].append([S(("a",)), S(v)])
+                D["rs_c"].append([S(v), C("a")])
+                D["m_w"].append([W(v), S(v)])
+                D["vs"].append([V([S(v)])])
+                D["os_s"].append([Opt(True, S(v)), S(v)])
+                D["t_i"].append([T([I(1), S(v)]), I(1)])
+                D["five"].append([I(7), I(7), S(v), C("a"), B(True)])
+        if len(ch) == 1:
+            D["rs_c"].append([S(("a",)), C(ch)])
     for _ in range(n):
         a, b, c = rstr(rng), rstr(rng), rstr(rng)
         D["s_s"].append([S(a), S(b)])
